@@ -170,6 +170,17 @@ func swapCase(s string) string {
 }
 
 // GenReadRange draws (offset, limit) aimed at the boundaries of an object of the given size.
+// GenHugeOffset: offsets at and next to every power of two from 2^31 to 2^63 (where 32-bit byte, sector and
+// block counters of any width wrap), plus the all-ones value.
+func GenHugeOffset(t *rapid.T, label string) uint64 {
+	k := rapid.IntRange(31, 64).Draw(t, label+"-pow")
+	if k == 64 {
+		return ^uint64(0) - uint64(rapid.IntRange(0, 2).Draw(t, label+"-ones"))
+	}
+	d := rapid.SampledFrom([]int64{-2049, -2048, -100, -1, 0, 1, 5, 2048}).Draw(t, label+"-delta")
+	return uint64(int64(uint64(1)<<k) + d)
+}
+
 func GenReadRange(t *rapid.T, size int64, label string) (off uint64, n uint32) {
 	anchors := []int64{0, size, size - 1, size + 1, size / 2, 2048, 4096, 65536, 131072, size - 2048, size - 65536}
 	pick := func(l string) int64 {
@@ -183,7 +194,7 @@ func GenReadRange(t *rapid.T, size int64, label string) (off uint64, n uint32) {
 		case 6, 7, 8:
 			return rapid.Int64Range(0, size+10).Draw(t, l+"-u")
 		default:
-			return rapid.SampledFrom([]int64{1 << 31, 1 << 32, 1<<32 + 5, 1<<62 + 1}).Draw(t, l+"-big")
+			return int64(GenHugeOffset(t, l+"-big") & (1<<63 - 1))
 		}
 	}
 	o := pick(label + "-off")
